@@ -233,11 +233,10 @@ Section Touch.
     - apply pres_sanitize_raw. exact Hp.
   Qed.
 
-  Lemma pres_do_copyfile src to_file mk :
-    nU to_file -> (forall od, mk = Some od -> nA od) -> pres T (do_copyfile c src to_file mk).
+  Lemma pres_copy_to src to_file mk :
+    nU to_file -> (forall od, mk = Some od -> nA od) -> pres T (copy_to c src to_file mk).
   Proof.
-    intros Hp Hmk. unfold do_copyfile.
-    destruct src; try (apply pres_fail; assumption).
+    intros Hp Hmk. unfold copy_to.
     apply pres_bind; [assumption | apply pres_query; assumption | intros il].
     apply pres_bind; [assumption | | intros _].
     { destruct il; [|apply pres_ret; assumption].
@@ -249,7 +248,15 @@ Section Touch.
       + apply pres_bind; [assumption | | intros; apply pres_ret; assumption].
         destruct mk as [od|]; [apply pres_dm_makedirs, Hmk; reflexivity | apply pres_ret; assumption].
     - destruct go; [|apply pres_ret; assumption].
-      repeat pres_step. apply pres_mutate'; [assumption|]. intros Edry f f'. apply touch_write. exact (Hp Edry).
+      repeat pres_step. apply pres_mutate'; [assumption|]. intros Edry f f' Hc. unfold src_create in Hc.
+      destruct src; try discriminate; [eapply touch_write | eapply touch_symlink]; eauto.
+  Qed.
+
+  Lemma pres_do_copyfile src to_file mk :
+    nU to_file -> (forall od, mk = Some od -> nA od) -> pres T (do_copyfile c src to_file mk).
+  Proof.
+    intros Hp Hmk. unfold do_copyfile.
+    destruct src; try (apply pres_fail; assumption); apply pres_copy_to; assumption.
   Qed.
 
   Lemma pres_try_symlink link target : nU link -> pres T (try_symlink c link target).
@@ -295,8 +302,7 @@ Section Touch.
     - destruct pd; [apply pres_ret; assumption|].
       apply pres_bind; [assumption | apply pres_dm_makedirs, nU_nA, Hd | intros _].
       apply pres_mutate'; [assumption|]. intros Edry f f'. apply touch_chmod. exact (Hd Edry).
-    - destruct (snd e) as [[m t] dg].
-      apply pres_bind; [assumption | | intros _; apply pres_set_mode; exact Hp].
+    - apply pres_bind; [assumption | | intros _; apply pres_set_mode; exact Hp].
       apply pres_do_copyfile; [exact Hp | discriminate].
   Qed.
 
@@ -350,6 +356,7 @@ Section Touch.
       + apply pres_bind; [assumption | apply Hc | intros cp]. destruct cp; [apply pres_set_mode; exact Hn | apply pres_ret; assumption].
       + destruct (fi_optional i); [apply pres_ret | apply pres_fail]; assumption.
       + apply pres_fail; assumption.
+      + apply pres_bind; [assumption | apply Hc | intros cp]. destruct cp; [apply pres_set_mode; exact Hn | apply pres_ret; assumption].
     - apply pres_bind; [assumption | apply Hc | intros _; apply pres_set_mode; exact Hn].
     - apply pres_bind; [assumption | apply Hc | intros _; apply pres_set_mode; exact Hn].
     - apply pres_bind; [assumption | apply Hc | intros _; apply pres_set_mode; exact Hn].
